@@ -264,6 +264,7 @@ def adjust_offsets_w_sustain(
 ) -> None:
     # get all note offsets
     offs = np.fromiter((n["note_off"] for n in notes), dtype=float)
+    note_offs = offs.copy()
     first_off = np.min(offs)
     last_off = np.max(offs)
 
@@ -310,9 +311,18 @@ def adjust_offsets_w_sustain(
         sorted_note_ons = note_ons[sorted_indices]
         sorted_sound_offs = offs[sorted_indices]
 
-        adjusted_sound_offs = np.minimum(sorted_sound_offs[:-1], sorted_note_ons[1:])
+        # a note is cut by the next strike of the same pitch at or after its
+        # release (a strike while the key is still held down cannot end it)
+        next_strike = np.maximum(
+            np.searchsorted(sorted_note_ons, note_offs[sorted_indices]),
+            np.arange(1, len(sorted_indices) + 1),
+        )
+        has_next = next_strike < len(sorted_indices)
+        sorted_sound_offs[has_next] = np.minimum(
+            sorted_sound_offs[has_next], sorted_note_ons[next_strike[has_next]]
+        )
 
-        offs[sorted_indices[:-1]] = adjusted_sound_offs
+        offs[sorted_indices] = sorted_sound_offs
 
     for offset, note in zip(offs, notes):
         note["sound_off"] = offset
